@@ -2732,7 +2732,7 @@ func emitLeaves7(repo string, parsed map[string][]*ast.File, fset *token.FileSet
 			sb.WriteString("import ScionTime.Gen." + d + "\n")
 		}
 		sb.WriteString("import ScionTime.Model.GoPrelude2\nset_option linter.unusedVariables false\nnamespace ScionTime.Gen.Leaf\nopen ScionTime\n\n")
-		sb.WriteString(body.String())
+		sb.WriteString(renameStructs9(file, body.String()))
 		sb.WriteString("end ScionTime.Gen.Leaf\n")
 		writeIfChanged(outDir+"/"+file+".lean", sb.String())
 	}
